@@ -163,6 +163,25 @@ pub fn replay_parse(opts: &Opts) -> i32 {
         }
         let obs = run_parse(&input);
         let mut kinds = compare_parse(&input, &exp, &obs);
+        // HISTORY: the answer for this input must not depend on what the thread parsed just before.  The input is
+        // parsed again right after each of a few RELATED inputs (the same text with up to three characters removed at
+        // its end, or just before its last character -- the text as it was a few keystrokes earlier; seed C14-i:
+        // segmentation resumed from the previous, shorter format), and judged against the SAME expectation.
+        if kinds.is_empty() {
+            let cs: Vec<char> = input.chars().collect();
+            let nn = cs.len();
+            if nn >= 2 && nn <= 200 {
+                'primes: for j in [nn, nn - 1] {
+                    for i in (j.saturating_sub(3)..j).rev() {
+                        let prime: String = cs[..i].iter().chain(cs[j..].iter()).collect();
+                        let _ = run_parse(&prime);
+                        let again = run_parse(&input);
+                        let k2 = compare_parse(&input, &exp, &again);
+                        if !k2.is_empty() { kinds = k2; kinds.push("after-related-input"); break 'primes; }
+                    }
+                }
+            }
+        }
         if total {
             // C03: the rest of the pipeline must return too (compile, render, io_map)
             if let ParseOut::Ok(o, t) = &obs {
